@@ -282,6 +282,11 @@ func check(args []string) int {
 				k, _ := strconv.Atoi(strings.TrimPrefix(es.Sched, "explore:"))
 				ecfg.SchedExplore = k
 			}
+			if strings.HasPrefix(es.Sched, "delay:") { // delay-bounded: canonical order + <= k pre-emptions
+				k, _ := strconv.Atoi(strings.TrimPrefix(es.Sched, "delay:"))
+				ecfg.SchedExplore = k
+				ecfg.SchedDelay = true
+			}
 			if es.MapOrder == "nondet" {
 				ecfg.MapOrderNondet = true
 			}
@@ -396,6 +401,9 @@ func check(args []string) int {
 				violations++
 				lines = append(lines, fmt.Sprintf("VIOLATION property=%s replay=%s", *id, cv.replay))
 				lines = append(lines, fmt.Sprintf("  entry=%s assert=%s: %s", res.spec.Func, cv.v.ID, cv.v.Msg))
+				if cv.v.Where != "" {
+					lines = append(lines, "  where: "+strings.ReplaceAll(cv.v.Where, "\n", "\n    "))
+				}
 				if cv.detail != "" {
 					lines = append(lines, "  native: "+cv.detail)
 				}
